@@ -7,6 +7,9 @@ import json, os, re, sys, glob
 
 ROOT = os.path.join(os.path.dirname(os.path.abspath(__file__)), '..', 'seeded')
 OBSOLETE = {
+    'C14-6': "neutralised by fix cb50cf7: set_type now collects the matched field names afresh for every package, so registering them with "
+             "setdefault(name, [...]) instead of append no longer keeps anything from an earlier use (the defect the change introduced was "
+             "a variant of one the pinned tree already had: stale names of an earlier use; the check now covers step reuse natively).",
     'C04-2': "neutralised by fix 51d5eff: UniqueKeyError is a subclass of CastError and the CastError clause now re-raises, so removing "
              "the UniqueKeyError clause no longer changes behaviour (demo passes on the patched tree); on the pinned tree it silenced the error.",
     'C05-2': "superseded by fix 611c890: printer's per-resource pass-through branch (the code the change edits) was replaced by a "
